@@ -5,6 +5,7 @@ import SF.GenEq.Tactic
 set_option linter.unusedSimpArgs false
 set_option linter.unusedSectionVars false
 set_option linter.unusedVariables false
+set_option maxHeartbeats 400000
 /-! Translator tie for `Multiply` (src/pure_functions/multiply.rs): the view generated from the Rust text = the model's `binop mulF A B`,
 for every child view: same answers and same panics on every input.  (Table-driven: tools/mk_geneq.py.) -/
 namespace SF.GenEq.Multiply
@@ -22,7 +23,7 @@ theorem upd_eq (A : View α) (B : View α) (s : State α A.σ B.σ) (x : α)  :
     (update A B s x).map (abs A B) = (binop mulF A B).upd (abs A B s) x := by
   simp only [update, wrap, mapV, binop, mulF, abs]; gen_tie
 theorem upd_cfg (A : View α) (B : View α) (s s' : State α A.σ B.σ) (x : α) : update A B s x = .ok s' → True := by
-  simp only [update]; gen_tie
+  simp only [update, mulF]; gen_tie
 theorem last_eq (A : View α) (B : View α) (s : State α A.σ B.σ)  : last A B s = (binop mulF A B).last (abs A B s) := by
   simp only [last, wrap, mapV, binop, mulF, abs]; gen_tie
 
@@ -33,14 +34,16 @@ def sim (A : View α) (B : View α)   : Sim (mkView (s0 A B ) (update A B) (last
   init_abs := by rfl
   upd := fun (s : State α A.σ B.σ) x hs => by
     skip
-    exact upd_eq A B s x 
+    have := upd_eq A B s x  
+    exact this
   upd_cfg := fun (s : State α A.σ B.σ) x s' hs h => by
     skip
     have := upd_cfg A B s s' x h
     simp_all
   last := fun (s : State α A.σ B.σ) hs => by
     skip
-    exact last_eq A B s 
+    have := last_eq A B s  
+    exact this
 
 /-- the Rust text of `Multiply`, as translated, and the model agree on every input: same answers, same panics -/
 theorem tie (A : View α) (B : View α)   (xs : List α) :
